@@ -7,8 +7,10 @@ ID = 'C17'
 N = {'quick': 2500, 'thorough': 40000}
 SEARCH_N = {'quick': 3000, 'thorough': 20000}
 CASE_TIMEOUT = 30.0
-RULE = ('"w" cases: strictly monotonic source coordinate (1..7 levels, ascending or descending; exact stream: power-of-two spacings times '
-        '2^ue so that scipy/numpy binary64 arithmetic is exact) and 1..6 target points at source points, between them, at the ends and '
+RULE = ('"w" cases: strictly monotonic source coordinate stored as int32 / int64 / float32 / float64 (whole numbers for the integer '
+        'types, <= 14 significant bits for float32, also closely spaced levels just below a power of two) with float64 targets that the '
+        'source dtype cannot represent (fractional, > 24 bits); 1..7 levels, ascending or descending; exact stream: power-of-two spacings times '
+        '2^ue so that scipy/numpy binary64 arithmetic is exact and 1..6 target points at source points, between them, at the ends and '
         'outside (extrapolate True/False); observed: the getinterpweights matrix as exact fractions and interpDimension of a 1-D and a 2-D '
         'variable along the named dimension (either axis). "nd" cases: interpDimension with a 2-D / 3-D coordinate variable (layouts (z,k), '
         '(k,z), (i,z,k)): every column has its own source and target levels, neighbouring columns often share the source levels but differ in '
@@ -50,6 +52,24 @@ def _targets(rng, xs, k):
     return [rng.choice(pts) for _ in range(k)]
 
 
+SDTYPES = ['f8', 'f8', 'i4', 'i8', 'f4', 'f4']
+
+
+def _dtype_scale(rng, sd):
+    """(ue, multiplier for the SOURCE values): integer sources must be whole numbers while targets stay fractional;
+    float32 sources get few significant bits while float64 targets between them need more than 24"""
+    if sd in ('i4', 'i8'):
+        k = rng.randint(1, 6)
+        return -k, 2 ** k
+    if sd == 'f4' and rng.random() < 0.7:
+        k = rng.randint(14, 20)
+        return rng.randint(-34, -20), 2 ** k
+    if sd == 'f8' and rng.random() < 0.2:
+        k = rng.randint(14, 20)
+        return rng.randint(-34, -20), 2 ** k
+    return rng.randint(-12, 6), 1
+
+
 def gen(rng, n, tier):
     out = []
     while len(out) < n:
@@ -60,12 +80,24 @@ def gen(rng, n, tier):
         r = rng.random()
         if r < 0.45:
             nl = rng.choice([1] + [2, 3, 4, 5, 6, 7] * 4) if tier != 'search' else rng.randint(2, 7)
+            sd = rng.choice(SDTYPES)
+            ue, mult = _dtype_scale(rng, sd)
             xs = _mono_pow2(rng, nl)
+            if mult > 1 and sd in ('f4', 'f8') and rng.random() < 0.5:
+                # closely spaced levels just below a power of two (sigma 1, .9999, .9998, ...)
+                xs = [8192]
+                for _ in range(nl - 1):
+                    xs.append(xs[-1] - 2 ** rng.randint(0, 2))
+                xs = xs[::-1]
+            xs = [x * mult for x in xs]
             if rng.random() < 0.3:
                 xs = xs[::-1]
             nxs = _targets(rng, xs, rng.randint(1, 6))
-            out.append(dict(kind='w-%s-%d' % ('desc' if len(xs) > 1 and xs[0] > xs[-1] else 'asc', nl), ue=rng.randint(-12, 6), xs=xs, nxs=nxs,
-                            extrap=rng.random() < 0.3, data=[rng.randint(-64, 64) for _ in xs], axis=rng.choice([0, 1])))
+            if mult > 1 and len(xs) > 1:
+                lo, hi = min(xs), max(xs)
+                nxs = [v if rng.random() < 0.4 else rng.randint(lo, hi) | 1 for v in nxs]    # odd = not a multiple of mult
+            out.append(dict(kind='w-%s-%d-%s' % ('desc' if len(xs) > 1 and xs[0] > xs[-1] else 'asc', nl, sd), ue=ue, xs=xs, nxs=nxs,
+                            sdtype=sd, extrap=rng.random() < 0.3, data=[rng.randint(-64, 64) for _ in xs], axis=rng.choice([0, 1])))
         elif r < 0.55 and tier != 'search':
             nl = rng.randint(2, 8)
             xs = [rng.uniform(-100, 100)]
@@ -100,8 +132,23 @@ def gen(rng, n, tier):
             else:
                 pts = sorted({rng.randint(bottom - 3, top + 3) for _ in range(rng.randint(2, 5))}, reverse=True)
                 to = pts if len(pts) >= 2 else [top + 1, bottom]
-            # sigma unit: values must stay float32-exact; unit 2^ue
-            out.append(dict(kind='s-' + style, ue=rng.randint(-10, -5), fr=fr, to=to,
+            # sigma unit: source values must stay float32-exact; unit 2^ue
+            ue = rng.randint(-10, -5)
+            if rng.random() < 0.35 and style in ('interleave', 'subrange', 'same', 'subset'):
+                # closely spaced float32 levels near the top (1, .9999, ...) with float64 targets between them that float32
+                # cannot represent
+                k = rng.randint(14, 17)
+                off = 2 ** 13 - fr[0]
+                fr = [(v + off) * 2 ** k for v in fr]
+                top, bottom = fr[0], fr[-1]
+                if style in ('interleave', 'subrange') and top - bottom > 2:
+                    inner = sorted({rng.randint(bottom + 1, top - 1) | 1 for _ in range(rng.randint(1, 5))}, reverse=True)
+                    to = [top] + [v for v in inner if bottom < v < top] + [bottom]
+                else:
+                    to = [(v + off) * 2 ** k for v in to]
+                ue = -13 - k
+                style += '-fine'
+            out.append(dict(kind='s-' + style, ue=ue, fr=fr, to=to,
                             data=[rng.randint(0, 64) for _ in range(nl)], const=rng.randint(1, 9)))
         else:
             nl = rng.randint(1, 8)
@@ -122,15 +169,19 @@ def _gen_nd(rng):
     ni = rng.randint(1, 2) if layout == 'izk' else 1
     nk = rng.randint(2, 4) if layout != 'izk' else rng.randint(2, 3)
     cols = []
-    xs = _mono_pow2(rng, n, 0, 4)
+    sd = rng.choice(SDTYPES)
+    ue, mult = _dtype_scale(rng, sd)
+    if mult == 1:
+        ue = rng.randint(-10, 4)
+    xs = [x * mult for x in _mono_pow2(rng, n, 0, 4)]
     for c in range(ni * nk):
         r = rng.random()
         if c > 0 and r < 0.65:
             pass                                  # same source levels as the previous column
         elif r < 0.85:
-            xs = _mono_pow2(rng, n, 0, 4)
+            xs = [x * mult for x in _mono_pow2(rng, n, 0, 4)]
         else:
-            xs = _mono_pow2(rng, n, 0, 4)[::-1]
+            xs = [x * mult for x in _mono_pow2(rng, n, 0, 4)[::-1]]
         lo, hi = min(xs), max(xs)
         if m == n and rng.random() < 0.35:
             nxs = list(xs)                        # target == source in this column
@@ -139,7 +190,7 @@ def _gen_nd(rng):
         else:
             nxs = sorted(rng.randint(lo - 5, hi + 5) for _ in range(m))
         cols.append(dict(xs=list(xs), nxs=nxs, arb=[rng.randint(-64, 64) for _ in range(n)]))
-    return dict(kind='nd-' + layout, ue=rng.randint(-10, 4), layout=layout, ni=ni, nk=nk, cols=cols,
+    return dict(kind='nd-%s-%s' % (layout, sd), ue=ue, layout=layout, ni=ni, nk=nk, cols=cols, sdtype=sd,
                 extrap=rng.random() < 0.3, lin=[rng.randint(-5, 5), rng.randint(-20, 20)])
 
 
@@ -185,8 +236,11 @@ def _interp_nd(case):
         if case['layout'] == 'izk':
             fl.createDimension('i', case['ni'])
     src = np.ldexp(_nd_arrays(case, 'xs', n), ue)
+    sd = case.get('sdtype', 'f8')
+    if not (src.astype(sd).astype('d') == src).all():
+        raise AssertionError('source coordinate not representable in ' + sd)
     for name, key in (('zc', 'xs'), ('lin', 'lin'), ('arb', 'arb')):
-        v = f.createVariable(name, 'd', dims)
+        v = f.createVariable(name, sd if name == 'zc' else 'd', dims)
         v[:] = np.ldexp(_nd_arrays(case, key, n), ue) if name != 'arb' else _nd_arrays(case, key, n)
     o = f.createVariable('other', 'd', ('k',))
     o[:] = np.arange(case['nk']) + 0.5
@@ -215,14 +269,14 @@ def _frac_rows(a):
     return [[[Fraction(float(v)).numerator, Fraction(float(v)).denominator] for v in row] for row in a]
 
 
-def _interp_dimension(xs, nxs, data, axis, extrap):
+def _interp_dimension(xs, nxs, data, axis, extrap, sdtype='f8'):
     import numpy as np
     from PseudoNetCDF import PseudoNetCDFFile
     f = PseudoNetCDFFile()
     n = len(xs)
     f.createDimension('z', n)
     f.createDimension('k', 2)
-    z = f.createVariable('z', 'd', ('z',))
+    z = f.createVariable('z', sdtype, ('z',))
     z[:] = xs
     v = f.createVariable('v', 'd', ('z',))
     v[:] = data
@@ -280,7 +334,11 @@ def impl(case):
                 nxs = np.array([float.fromhex(h) for h in case['nxs_hex']])
                 w = getinterpweights(xs, nxs, extrapolate=case['extrap'])
                 return dict(W=[[float(v).hex() for v in col] for col in w.T])
-            xs = np.ldexp(np.array(case['xs'], dtype='d'), case['ue'])
+            sd = case.get('sdtype', 'f8')
+            xs64 = np.ldexp(np.array(case['xs'], dtype='d'), case['ue'])
+            xs = xs64.astype(sd)
+            if not (xs.astype('d') == xs64).all():
+                raise AssertionError('source coordinate not representable in ' + sd)
             nxs = np.ldexp(np.array(case['nxs'], dtype='d'), case['ue'])
             w = getinterpweights(xs, nxs, extrapolate=case['extrap'])
             obs = {}
@@ -289,7 +347,7 @@ def impl(case):
                 obs['nonfinite'] = True
             else:
                 obs['W'] = _frac_rows(w.T)
-            ov, om, oz = _interp_dimension(xs, nxs, case['data'], case['axis'], case['extrap'])
+            ov, om, oz = _interp_dimension(xs, nxs, case['data'], case['axis'], case['extrap'], sd)
             if np.isfinite(ov).all():
                 obs['out'] = [[Fraction(float(v)).numerator, Fraction(float(v)).denominator] for v in ov]
                 obs['m_ok'] = bool((om[:, 0] == ov).all() and (om[:, 1] == 2 * ov).all())
@@ -329,6 +387,8 @@ def coq_term(case, obs):
             for name, tag, data in (('zc', '(Some (1, 0))', col['xs']),
                                     ('lin', '(Some (%s, %s))' % (C.zc(a), C.zc(b)), [a * x + b for x in col['xs']]),
                                     ('arb', 'None', col['arb'])):
+                if name == 'zc' and case.get('sdtype') == 'f4':
+                    continue      # stored back into a float32 variable: rounded to 24 bits, not an interpolation matter
                 out = _frl(oc[name]) if oc[name] is not None else '[]'
                 vs.append('(%s, %s, %s)' % (tag, C.zlist(data), out))
             cols.append('(%s, %s, [%s])' % (C.zlist(col['xs']), C.zlist(col['nxs']), '; '.join(vs)))
@@ -378,6 +438,18 @@ def _sigma_check(case, obs, fr, to, tol):
                 why.append('%s: non-finite result' % it)
     if why:
         return why
+    # interpSigma('linear'): layer midpoints to layer midpoints with the hat-function weights (clipped outside the range)
+    zs = [(a + b) / 2 for a, b in zip(fr, fr[1:])]
+    nzs = [(a + b) / 2 for a, b in zip(to, to[1:])]
+    if len(zs) >= 2:
+        amax = max([abs(d) for d in case['data']] + [1])
+        for x, h in zip(nzs, sig['linear']['A']):
+            w = _hat_oracle(zs, x)
+            w = [max(Fraction(0), v) for v in w]
+            t = sum(w)
+            exp = sum(v / t * d for v, d in zip(w, case['data']))
+            if abs(Fraction(float.fromhex(h)) - exp) > tol * amax:
+                why.append('linear: value at sigma %s is %s, linear interpolation gives %s' % (float(x), float.fromhex(h), float(exp)))
     if not (fr[0] == to[0] and fr[-1] == to[-1]):
         return why
     dpi = [a - b for a, b in zip(fr, fr[1:])]
@@ -410,6 +482,8 @@ def py_check(case, obs):
             xs = [Fraction(v) for v in col['xs']]
             lo, hi = min(xs), max(xs)
             for name, data in (('zc', col['xs']), ('lin', [a * x + b for x in col['xs']]), ('arb', col['arb'])):
+                if name == 'zc' and case.get('sdtype') == 'f4':
+                    continue
                 if oc[name] is None:
                     why.append('column %d %s: non-finite' % (ci, name))
                     continue
